@@ -70,6 +70,14 @@ Definition mk (s : cstate) v ver wk rd wr mt st cl subs wok : cstate :=
 Definition with_pc (s : cstate) (t : nat) (op : cop) (p : pc) : cstate :=
   upd_thread s t {| t_op := op; t_pc := p; t_waiting := false |}.
 
+(* std::sync::RwLock (futex implementation) does not admit new readers while a writer is queued:
+   is_read_lockable = no writer holds it and nobody is waiting.  A queued writer is a thread blocked
+   at the start of a set. *)
+Definition writer_waiting (s : cstate) : bool :=
+  existsb (fun th => t_waiting th &&
+                     match t_op th, t_pc th with CSet _, PStart => true | _, _ => false end)
+          (c_threads s).
+
 (* one micro-step of thread t.  [fixed_drop]: true = the repaired Drop (atomic decrement-and-test of
    the clone counter), false = the original Drop (plain load of the counter). *)
 Definition cstep (fixed_drop : bool) (s : cstate) (t : nat) : adv :=
@@ -81,7 +89,7 @@ Definition cstep (fixed_drop : bool) (s : cstate) (t : nat) : adv :=
     | _, PDone _ _ _ => Finished
     (* ---- poll: subscriber.rs poll_next_ref + state.rs poll_update ---- *)
     | CPoll k, PStart =>
-        if c_writer s then Blocked
+        if c_writer s || writer_waiting s then Blocked
         else Advanced (with_pc (mk s (c_val s) (c_ver s) (c_wakers s) (S (c_readers s)) false (c_meta s)
                                    (c_strong s) (c_clones s) (c_subs s) (c_woken s)) t op PPollValueLocked)
     | CPoll k, PPollValueLocked =>
@@ -115,7 +123,7 @@ Definition cstep (fixed_drop : bool) (s : cstate) (t : nat) : adv :=
                           t op (PDone None (Some (c_val s)) None))
     (* ---- get ---- *)
     | CGet, PStart =>
-        if c_writer s then Blocked
+        if c_writer s || writer_waiting s then Blocked
         else Advanced (with_pc s t op (PDone None (Some (c_val s)) None))
     (* ---- clone: state.clone() then _num_clones.clone() ---- *)
     | CClone, PStart =>
@@ -224,3 +232,46 @@ Arguments cstate : clear implicits.
 Arguments thread : clear implicits.
 Arguments cop : clear implicits.
 Arguments pc : clear implicits.
+
+Section ConcRun.
+Context {V : Type}.
+
+(* the state before any thread runs: [clones] owners, subscribers with the given observed versions,
+   the subscribers in [pending] registered as wakers, value v, version ver *)
+Definition cinit (v : V) (ver : nat) (clones : nat) (subs : list nat) (pending : list nat)
+           (ops : list (cop V)) : cstate V :=
+  {| c_val := v; c_ver := ver; c_wakers := pending; c_readers := 0; c_writer := false; c_meta := false;
+     c_strong := clones + length subs; c_clones := clones; c_subs := subs;
+     c_threads := map (fun op => {| t_op := op; t_pc := PStart; t_waiting := false |}) ops;
+     c_woken := []; c_panicked := [] |}.
+
+(* a schedule: which thread the director releases next *)
+Fixpoint run_sched (fixed_drop : bool) (s : cstate V) (sched : list nat) : cstate V :=
+  match sched with
+  | [] => s
+  | t :: rest => run_sched fixed_drop (fst (fst (release fixed_drop s t))) rest
+  end.
+
+(* which locks / references a thread holds at a program counter *)
+Definition holds_read (p : pc V) : bool :=
+  match p with PPollValueLocked | PPollMetaLocked | PPollDecided _ | PCloseMetaLocked => true | _ => false end.
+Definition holds_write (p : pc V) : bool := match p with PSetLocked => true | _ => false end.
+Definition holds_meta (p : pc V) : bool :=
+  match p with PPollMetaLocked | PPollDecided _ | PCloseMetaLocked => true | _ => false end.
+
+Definition count_pcs (f : pc V -> bool) (s : cstate V) : nat :=
+  length (filter (fun th => f (t_pc th)) (c_threads s)).
+
+(* no thread is in the middle of a drop or an upgrade *)
+Definition handles_quiescent (s : cstate V) : bool :=
+  forallb (fun th => match t_op th, t_pc th with
+                     | CDrop, PStart | CDrop, PDone _ _ _ | CUpgrade, PStart | CUpgrade, PDone _ _ _ => true
+                     | CDrop, _ | CUpgrade, _ => false
+                     | _, _ => true
+                     end) (c_threads s).
+
+(* every subscriber is polled by at most one thread *)
+Definition polls_distinct (ops : list (cop V)) : Prop :=
+  NoDup (flat_map (fun op => match op with CPoll k => [k] | _ => [] end) ops).
+
+End ConcRun.
